@@ -258,17 +258,27 @@ ConsumeLine ==
                      isChord == must.on /\ must.kind = "chord"
                      \* a write owed for a key event read earlier comes first (see NoMust)
                      older == must.q # <<>> /\ r.evs # <<>>
+                     \* everything owed for key events, oldest first; one write may carry the outputs of several consecutive steps (the events written are
+                     \* then still exactly the mapper's outputs, each step's once and in order): the write is matched with the shortest run of owed outputs,
+                     \* from the oldest on, whose concatenation it is
+                     owedAll == must.q \o (IF must.on /\ must.kind = "step" THEN <<[evs |-> must.evs, on2 |-> must.on2, evs2 |-> must.evs2]>> ELSE <<>>)
+                     runs == {k \in 1..Len(owedAll): FlattenSeq([i \in 1..k |-> owedAll[i].evs]) = r.evs}
+                     k1 == IF runs = {} THEN 1 ELSE CHOOSE k \in runs: \A j \in runs: k <= j
+                     rest == SubSeq(owedAll, k1 + 1, Len(owedAll))
                  IN
                  IF older THEN
                  /\ viol' = viol \cup AfterFailure
                        \cup Tag(ended, "C10-send-after-end-of-device")
                        \cup Tag(inTab, "C12-send-in-tablet-mode")
-                       \cup Tag(r.evs # Head(must.q).evs, "C10-wrong-payload-step")
-                       \cup Tag(afterTab /\ r.evs # Head(must.q).evs2, "C12-not-fresh-after-tablet-mode")
+                       \cup Tag(runs = {}, "C10-wrong-payload-step")
+                       \cup Tag(afterTab /\ r.evs # FlattenSeq([i \in 1..k1 |-> owedAll[i].evs2]), "C12-not-fresh-after-tablet-mode")
                        \cup Tag(~isErr /\ Redundant(held, r.evs), "C19-redundant-event-written-to-the-device")
                  /\ Bump(4)
                  /\ held' = (IF isErr THEN held ELSE HeldAfter(held, r.evs))
-                 /\ must' = [must EXCEPT !.q = Tail(@)]
+                 \* (what is left of the owed outputs stays owed; the newest stays in its place when it was not part of this write)
+                 /\ must' = IF must.on /\ must.kind = "step"
+                            THEN (IF k1 = Len(owedAll) THEN NoMust ELSE [must EXCEPT !.q = SubSeq(owedAll, k1 + 1, Len(owedAll) - 1)])
+                            ELSE [must EXCEPT !.q = rest]
                  /\ pend' = (IF pend.on /\ pend.open THEN [pend EXCEPT !.lo = r.tout + pend.delay * 1000, !.sent = TRUE] ELSE pend)
                  /\ kq' = kq1 /\ tq' = tq1 /\ kN' = kN1 /\ tN' = tN1
                  /\ prevTimeout' = FALSE
